@@ -4,7 +4,7 @@ from runner import Prop
 from vlib import Case
 import mb, cligen
 
-ALPHABET = ["good", "exception", "wrong_header", "wrong_function", "undecodable", "noise", "read_error", "surplus", "bad_mbap", "short_then_error"]
+ALPHABET = ["good", "exception", "wrong_header", "wrong_function", "undecodable", "noise", "read_error", "surplus", "bad_mbap", "short_then_error", "refused_junk"]
 
 
 def simple_req(rng):
@@ -16,7 +16,7 @@ class PROP(Prop):
     profiles = ["debug"]
     rule = ("all call histories up to length 3 (quick) / 4 (thorough) plus random longer ones over the outcome alphabet {good, exception, wrong "
             "header, wrong function, undecodable frame, CRC noise beyond the retry limit (RTU), transient read error, trailing surplus, "
-            "invalid MBAP header (TCP), truncated frame then error}, each followed by a good exchange, TCP and RTU, replies delivered "
+            "invalid MBAP header (TCP), truncated frame then error, a refused oversized request while an undecodable frame is pending}, each followed by a good exchange, TCP and RTU, replies delivered "
             "in one or several chunks.  Oracle: every call whose request was written and whose read script starts with its matching "
             "reply must return that reply.  non-trivial = history containing at least one failing outcome")
 
@@ -79,6 +79,12 @@ class PROP(Prop):
                 # split so that a read ends right after the 7-byte header or elsewhere: the call must consume the whole bad frame
                 bad = bytes(bad)
                 R = mb.rscript(rng.choice([[bad], [bad[:7], bad[7:]], [bad[:7], bad[7:8], bad[8:]], mb.chunkings(bad, rng, 1)[0]]))
+            elif o == "refused_junk":
+                # a request the encoder refuses (nothing is transmitted) while an undecodable frame is already waiting in the transport:
+                # the refused call has no business reading it
+                req = rng.choice([("WMR", 7, [1] * 130), ("CU", 0x41, bytes(300))])
+                junk = cligen.frame(proto, i, slave, bytes([5, 0, 1, 0x12, 0x34])) if proto == "tcp" else bytes([0x00, 0x80] * 13)
+                R = mb.rscript([junk])
             elif o == "short_then_error":
                 R = mb.rscript([good[:max(1, len(good) // 2)]], ["e:ConnectionReset"])
             ops.append(cligen.call_op(req, R=R))
